@@ -6,7 +6,7 @@ import numpy as np
 
 from mc.build import Labeling, make_bn
 from mc.choices import explore
-from mc.gen.dags import all_ugraphs, iso_classes, subsets
+from mc.gen.dags import all_ugraphs, all_dags, iso_classes, subsets
 from mc.gen.tables import bn_from_desc, family_descs
 from mc.markov import joint_of, make_mn, ref_mn
 from mc.ref.discrete import posterior
@@ -22,7 +22,7 @@ RULE = ("E3: numpy.random is owned by the harness; every outcome tuple of every 
         "styles (incl. non-identity ints) x latent subsets; all evidence sets of size 1; sizes {1,2}; seeds {0,1,2} "
         "reproducibility with the real RNG (two engines + a fresh process). non-trivial = distinct (model, call) whose law "
         "has >=3 outcomes with pairwise different probabilities")
-BOUNDS = {"quick": "iso classes n<=3 x {(2,2,2) with zeros, (2,3,2)} x styles {def,str,rot,shift}; forward size 1 (size 2 on n<=2 and on n=3 with default style); LW size 1 (2 on n<=2), |E|=1; rejection size 1 (size 2 on n<=2), "
+BOUNDS = {"quick": "iso classes n<=3 x {(2,2,2) with zeros, (2,3,2)} x styles {def,str,rot,shift}; forward size 1 (size 2 on n<=2 and on n=3 with default style); LW size 1 (2 on n<=2), |E|=1; forward and LW with size 2 on every 3-node DAG with a two-parent node x cards {(2,3,2),(3,2,2),(2,2,3)}; rejection size 1 (size 2 on n<=2), "
                    "horizon: choice points of <=6 draws, <=40 points per path (cut mass reported); Gibbs BN+MN n<=3, chains of length<=3; simulate with do/evidence/virtual",
           "thorough": "adds |E|=2 (size 1), forward size 2 on all styles/latents, LW size 2 with |E|=1 on n=3, rejection size 2 on all n<=2 models, horizon 7 draws / 4000 paths"}
 EXHAUSTIVE = {"quick": True, "thorough": True}
@@ -44,6 +44,12 @@ def groups(tier, seed):
             for e in iso_classes(n):
                 for k in (0, 1):
                     out.append({"part": "bn", "bn": {"n": n, "edges": [list(x) for x in e], "card": list(cv[:n]), "cols": {"nd": k}}, "style": "str", "emax": 1})
+    # two parents of DIFFERENT cardinalities (both orders) with two samples per call: rows are grouped by parent configuration
+    for e in all_dags(3):
+        if max(sum(1 for a, b in e if b == v) for v in range(3)) >= 2:
+            for cv in ((2, 3, 2), (3, 2, 2), (2, 2, 3)):
+                for d in family_descs(3, [e], [cv], fams=(), fps=(0,)):
+                    out.append({"part": "bn", "bn": d, "style": "str", "emax": 1, "size2": True})
     for n in (2, 3):
         for d in family_descs(n, iso_classes(n), [(2, 3, 2)[:n]], fams=(), fps=(1,)):
             for stl in ("def", "rot", "str"):
@@ -155,7 +161,7 @@ def _bn(st, g, tier, only=None):
         for incl in ((False, True) if lat else (False,)):
             cols = [v for v in range(n) if incl or v not in lat]
             marg = joint.marginalize([v for v in range(n) if v not in cols])
-            for size in ((1, 2) if (n <= 2 or (g["style"] == "def" and not lat) or tier == "thorough") else (1,)):
+            for size in ((2,) if g.get("size2") else (1, 2) if (n <= 2 or (g["style"] == "def" and not lat) or tier == "thorough") else (1,)):
                 call = ["forward", list(lat), incl, size]
                 if only is not None and only != call:
                     continue
@@ -189,7 +195,7 @@ def _bn(st, g, tier, only=None):
             post_all, pe = full_post(joint, evd)
             ev_arg = [State(lab.name(v), lab.state(v, s)) for v, s in evd.items()]
             # mutilated network law for LW: evidence fixed, others follow P(x|pa); weight = prod_e P(e|pa)
-            for size in ((1, 2) if (n <= 2 or (tier == "thorough" and len(e) == 1)) else (1,)):
+            for size in ((1, 2) if (n <= 2 or (tier == "thorough" and len(e) == 1)) else (2,) if g.get("size2") else (1,)):
                 call = ["lw", [list(x) for x in evd.items()], size]
                 if only is not None and only != call:
                     continue
